@@ -87,6 +87,7 @@ class Tlc:
         self.wall = 0.0
         self.cmd = ""
         self.zero_cover = []
+        self.post_failed = False
 
 
 def tlc(module, cfg_text, name=None, workers=None, timeout=1800, env=None, coverage=False,
@@ -155,6 +156,9 @@ def tlc(module, cfg_text, name=None, workers=None, timeout=1800, env=None, cover
                 r.violated = m.group(1)
             if "Temporal properties were violated" in line:
                 r.violated = r.violated or "temporal"
+            if line.startswith("Error: Postcondition"):
+                r.post_failed = True
+                continue
             if line.startswith("Error: ") and r.violated is None and r.error is None and "Invariant" not in line \
                     and "The behavior up to this point" not in line:
                 r.error = line
@@ -164,7 +168,7 @@ def tlc(module, cfg_text, name=None, workers=None, timeout=1800, env=None, cover
     r.out = "\n".join(tail[-400:])
     if p.returncode == 0 and r.violated is None and r.error is None:
         r.ok = True
-    elif r.violated is not None:
+    elif r.violated is not None or r.post_failed:
         r.ok = False
     else:
         raise ToolError(f"TLC failed on {module} (rc={p.returncode}): {r.error}\n" + "\n".join(tail[-60:]))
